@@ -135,7 +135,7 @@ def load_kf():
 
 
 def write_record(prop, rec):
-    d = os.path.join(VERIF, 'replays', prop)
+    d = os.path.join(os.environ.get('VERIF_REPLAY_DIR') or os.path.join(VERIF, 'replays'), prop)
     os.makedirs(d, exist_ok=True)
     h = hashlib.sha1(json.dumps([rec['query'], rec['cube'], rec['args']], sort_keys=True, default=str).encode()).hexdigest()[:10]
     p = os.path.join(d, '%s-%s.json' % (rec['query'], h))
@@ -422,8 +422,9 @@ def _run(prop, tier, only, jobs, seed, scratch, t0):
         'wall_s': round(time.time() - t0, 1),
         'violations': len(violations),
     }
-    os.makedirs(os.path.join(VERIF, 'evidence'), exist_ok=True)
-    with open(os.path.join(VERIF, 'evidence', prop + '.json'), 'w') as f:
+    evdir = os.environ.get('VERIF_EVIDENCE_DIR') or os.path.join(VERIF, 'evidence')   # overridden only for mutant evaluation
+    os.makedirs(evdir, exist_ok=True)
+    with open(os.path.join(evdir, prop + '.json'), 'w') as f:
         json.dump(ev, f, indent=1, sort_keys=True, default=str)
 
     for ln in sorted(set(known_lines)):
